@@ -329,9 +329,11 @@ def resolveXtorTy (pol : Polarity) (st : SymbolTable) (xtor : String) (tyArgs : 
 /-- The loop `for xtor in expected_xtors { position / swap_remove / check clause }` shared by
 case.rs: Case::check and new.rs: New::check.  `sigOf st fullName` is the lookup in `ctors` (together
 with the type expected for the body, `expected` for a case) resp. `dtors`; `missing` is T-015 resp.
-T-010.  Returns the checked clauses in declaration order and the clauses left over. -/
+T-010; `checkRet` is true for `new`, where the destructor's return type is checked (and its instance
+created on demand) before the binders are looked at.  Returns the checked clauses in declaration
+order and the clauses left over. -/
 def clauseLoop (sigOf : SymbolTable → String → Option (Ctx × Ty)) (missing : String)
-    (tyArgs : Tys) (ctx : Ctx) :
+    (checkRet : Bool) (tyArgs : Tys) (ctx : Ctx) :
     List String → List ClauseK → List Clause → SymbolTable →
       R (List Clause × List ClauseK × SymbolTable)
   | [], ks, acc, st => .ok (acc.reverse, ks, st)
@@ -347,17 +349,21 @@ def clauseLoop (sigOf : SymbolTable → String → Option (Ctx × Ty)) (missing 
         match sigOf st fullName with
         | none => .error (.diag "T-002")
         | some (sig, bodyTy) =>
-          match namesNoDups k.src.names [] with
+          -- new.rs: `dtor_ret_ty.check(&Some(self.span), symbol_table)?`
+          match (if checkRet then checkTy bodyTy st else .ok st) with
           | .error e => .error e
-          | .ok () =>
-            match addTypes k.src.names sig with
+          | .ok st0 =>
+            match namesNoDups k.src.names [] with
             | .error e => .error e
-            | .ok ctxClause =>
-              match k.body st (ctx ++ ctxClause) bodyTy with
+            | .ok () =>
+              match addTypes k.src.names sig with
               | .error e => .error e
-              | .ok (body', st1) =>
-                clauseLoop sigOf missing tyArgs ctx rest ks'
-                  (⟨k.src.pol, k.src.xtor, k.src.names, ctxClause, body'⟩ :: acc) st1
+              | .ok ctxClause =>
+                match k.body st0 (ctx ++ ctxClause) bodyTy with
+                | .error e => .error e
+                | .ok (body', st1) =>
+                  clauseLoop sigOf missing checkRet tyArgs ctx rest ks'
+                    (⟨k.src.pol, k.src.xtor, k.src.names, ctxClause, body'⟩ :: acc) st1
 
 /-- check.rs: check_args, covariable case on an `XVar` argument -/
 def checkCovarArg (st : SymbolTable) (ctx : Ctx) (x : String) (ty : Option Ty) (chi : Option Chi)
@@ -516,7 +522,7 @@ mutual
           | .error e => .error e
           | .ok (scrut', st2) =>
             match clauseLoop (fun s n => (s.ctors.get? n).map fun sig => (sig, expected))
-                "T-015" tyArgs ctx expectedCtors (clauseCheckers cs) [] st2 with
+                "T-015" false tyArgs ctx expectedCtors (clauseCheckers cs) [] st2 with
             | .error e => .error e
             | .ok (newClauses, left, st3) =>
               if !left.isEmpty then .error (.diag "T-016")
@@ -531,7 +537,7 @@ mutual
         | none => .error (.diag "T-002")
         | some (.data, _, _) => .error (.diag "T-012")
         | some (.codata, _, expectedDtors) =>
-          match clauseLoop (fun s n => s.dtors.get? n) "T-010" tyArgs ctx expectedDtors
+          match clauseLoop (fun s n => s.dtors.get? n) "T-010" true tyArgs ctx expectedDtors
               (clauseCheckers cs) [] st with
           | .error e => .error e
           | .ok (newClauses, left, st1) =>
@@ -547,9 +553,13 @@ mutual
       match lookupCovar ctx a with
       | .error e => .error e
       | .ok contTy =>
-        match checkTerm arg st ctx contTy with
+        -- the instance of the type of the covariable might not have been created yet
+        match checkTy contTy st with
         | .error e => .error e
-        | .ok (arg', st1) => .ok (.goto a arg' (some expected), st1)
+        | .ok st0 =>
+          match checkTerm arg st0 ctx contTy with
+          | .error e => .error e
+          | .ok (arg', st1) => .ok (.goto a arg' (some expected), st1)
     -- exit.rs
     | .exit arg _ => fun st ctx expected =>
       match checkTerm arg st ctx .i64 with
